@@ -503,7 +503,10 @@ package rt
 var bits []bool
 var overflow bool
 
-func SetBits(b []bool) { bits = b; overflow = false }
+// Marked is set by the driver's probes (e.g. "this call returned nil").
+var Marked bool
+
+func SetBits(b []bool) { bits = b; overflow = false; Marked = false }
 
 // Overflowed reports whether a condition was asked after the answers were used up (the run is then only one of
 // the executions that continue with "false").
